@@ -22,7 +22,7 @@ func init() {
 		Explanation: "Structural totality rules over everything reachable from the decoders, the encoders, the compiler and the authorizers: R10.1 every explicit panic is the default of a type switch that " +
 			"is exhaustive over a sealed sum type (dead for non-nil operands; the decoders hand out a zero node only together with an error) or a tabled programming-error guard whose call sites are checked; " +
 			"R10.2 every single-result type assertion outside the validator is justified by the callee/argument types; R10.3 a pointer that encoding/json may leave nil (pointer fields and pointer-valued " +
-			"map/slice elements of the JSON wire structs) is dereferenced — directly, through a value-receiver method, or by a callee that dereferences its parameter unconditionally — only under a nil test; " +
+			"map/slice elements of the JSON wire structs) is dereferenced — directly, through a value-receiver method, or by a callee that dereferences its parameter unconditionally — only under a nil test (decode targets are all json-tagged structs; a pointer merged with others stays suspect until the merged value is tested; a map or slice of pointers filled by encoding/json may not leave its decoder whole); " +
 			"R10.4 constant indexing of a slice that comes from input, or of a slice parameter of a named function, is dominated by a length fact (length test, registry arity under a name test, caller contract), and the text parser's token cursor obeys pos < len(tokens) by who-may-write rules; R10.5 recursion that " +
 			"consumes input (the text parsers' expression cycles) needs a depth bound, JSON-driven recursion is bounded by encoding/json's nesting limit; R10.6 every loop of both recursive-descent parsers " +
 			"consumes a token or leaves on every path through its body. Not decided: slicing arithmetic inside the tokenizer, the rust-style unquoting tables, Pattern.Match, duration/datetime string parsers.",
